@@ -386,3 +386,17 @@ func (g *Graph) DominatingAtoms(site Point, pat string, assume ...string) []stri
 func (g *Graph) MustPassBefore(from, to Point, via func(p Point, n ast.Node) bool, cut Cut) bool {
 	return !g.Reachable(from, to, cut, via)
 }
+
+// WalkLits returns the composite literals of type typ in f's own body.
+func (f *Fn) WalkLits(typ string) []*ast.CompositeLit {
+	var out []*ast.CompositeLit
+	f.WalkBody(func(n ast.Node) bool {
+		if cl, ok := n.(*ast.CompositeLit); ok {
+			if t := f.Info().TypeOf(cl); t != nil && TypeStr(t) == typ {
+				out = append(out, cl)
+			}
+		}
+		return true
+	})
+	return out
+}
